@@ -800,10 +800,89 @@ func (s *vxState) run(scheme, n int, ids []uint64, edges []vEdge, numPairs int, 
 		ctx := vxLazy(func() string {
 			return fmt.Sprintf("store: nodes %v added first, then edges (id 100+i) %v", ids, edges)
 		})
+		s.guard("ts-traversal", ctx, func() { s.runTSTraversals(ids, edges, ts0, ctx) })
 		s.guard("projection-sets", ctx, func() { s.runProjections(ids, edges, numPairs, nonNode, ts0, ctx) })
 		s.guard("projection-sets", ctx, func() {
 			s.check(vxObserve(ts0, qids), nv, "purity-after-projections", "triplestore", "triplestore", ctx)
 		})
+	}
+}
+
+// X5. TSBFS and TSDFS (the walk enumerators over a triple store, observation points of C14): every root, outbound and
+// inbound, maxDepth 1..3 (a positive bound keeps the walks finite on cyclic graphs), descent filters {accept every edge,
+// reject every edge, reject exactly one edge, accept exactly one edge}. Oracle, written from the doc of the two
+// functions and not from their code: a naive recursive enumeration of the walks from the root over accepted edges; a
+// walk of at least one edge is handed to the handler when nothing extends it - no adjacent edge is accepted, or it is
+// longer than the bound - and the returned number counts the walks cut by the bound. Both functions must hand over
+// exactly that multiset of walks (as edge id sequences) and return that number.
+func (s *vxState) runTSTraversals(ids []uint64, edges []vEdge, ts *triplestore, ctx fmt.Stringer) {
+	type filter struct {
+		name   string
+		accept func(edgeID uint64) bool
+	}
+	filters := []filter{{"accept all", func(uint64) bool { return true }}, {"reject all", func(uint64) bool { return false }}}
+	for i := range edges {
+		id := uint64(100 + i)
+		filters = append(filters, filter{fmt.Sprintf("reject edge %d", id), func(e uint64) bool { return e != id }})
+		filters = append(filters, filter{fmt.Sprintf("accept only edge %d", id), func(e uint64) bool { return e == id }})
+	}
+	for _, root := range ids {
+		for _, dir := range []graph.Direction{graph.DirectionOutbound, graph.DirectionInbound} {
+			for maxDepth := 1; maxDepth <= 3; maxDepth++ {
+				for _, f := range filters {
+					// naive enumeration
+					want := map[string]int{}
+					wantCut := 0
+					var walk func(node uint64, depthNodes int, path string)
+					walk = func(node uint64, depthNodes int, path string) {
+						exceeded := maxDepth < depthNodes
+						pushed := 0
+						if !exceeded {
+							for i, e := range edges {
+								id := uint64(100 + i)
+								from, to := e.s, e.e
+								if dir == graph.DirectionInbound {
+									from, to = e.e, e.s
+								}
+								if from == node && f.accept(id) {
+									pushed++
+									walk(to, depthNodes+1, path+fmt.Sprintf("%d>", id))
+								}
+							}
+						}
+						if depthNodes > 1 && pushed == 0 {
+							want[path]++
+							if exceeded {
+								wantCut++
+							}
+						}
+					}
+					walk(root, 1, "")
+					for _, impl := range []struct {
+						name string
+						run  func(Triplestore, uint64, graph.Direction, int, func(Edge) bool, func(*Segment) bool) int
+					}{{"TSBFS", TSBFS}, {"TSDFS", TSDFS}} {
+						s.count("ts-traversal", 1)
+						got := map[string]int{}
+						cut := impl.run(ts, root, dir, maxDepth, func(e Edge) bool { return f.accept(e.ID) }, func(seg *Segment) bool {
+							var ids []uint64
+							for c := seg; c != nil && c.Previous != nil; c = c.Previous {
+								ids = append(ids, c.Edge)
+							}
+							path := ""
+							for i := len(ids) - 1; i >= 0; i-- {
+								path += fmt.Sprintf("%d>", ids[i])
+							}
+							got[path]++
+							return true
+						})
+						if fmt.Sprint(got) != fmt.Sprint(want) || cut != wantCut {
+							s.dev("ts-traversal", "%s(root=%d, %s, maxDepth=%d, filter: %s) handed over walks %v and returned %d; naive enumeration: %v and %d; %s", impl.name, root, vxDirName(dir), maxDepth, f.name, got, cut, want, wantCut, ctx)
+						}
+					}
+				}
+			}
+		}
 	}
 }
 
